@@ -227,8 +227,7 @@ def cosim_block(D, obj, text, rnd, nseq, length, state_attrs=None, input_filter=
                 if is_seq:
                     D.settle()
                     D.clock()
-                    for ck in sorted({c for _, c in vb.clocks()}):
-                        vb.posedge(ck)
+                    vb.posedge({c for _, c in vb.clocks()})
                 else:
                     D.settle()
             except Nondet:
